@@ -153,6 +153,21 @@ theorem typed_optional_struct_zero_is_null :
   rw [typedWrite_eq_shred]
   decide
 
+/-- A map whose values carry the `optional` tag on a non-pointer Go type
+(`map[K]V` with `parquet-value:",optional"`; since the round-4 repair `writeRowsFuncOfMap` wraps the
+value writer with the optional wrapper): an entry holding the zero value is a null value one level
+below an entry holding any other value, in the stream of the value column; the key column is not
+affected. Rows: `{a: 0}`, `{a: 7, b: 0}`, nil map. -/
+theorem typed_map_optional_value_zero_is_null :
+    typedWrite (.struct (.cons (.map .leaf .optLeaf) .nil))
+      [.struct [.struct [.list [.struct [.prim 1, .none]]]],
+       .struct [.struct [.list [.struct [.prim 1, .some (.prim 7)], .struct [.prim 2, .none]]]],
+       .struct [.none]] =
+    [[⟨some 1, 0, 1⟩, ⟨some 1, 0, 1⟩, ⟨some 2, 1, 1⟩, ⟨none, 0, 0⟩],
+     [⟨none, 0, 1⟩, ⟨some 7, 0, 2⟩, ⟨none, 1, 1⟩, ⟨none, 0, 0⟩]] := by
+  rw [typedWrite_eq_shred]
+  decide
+
 /-- The typed path BEFORE the repair (`nullIndexStruct` set every bit: a non-pointer struct was never
 null): the zero struct of the first row is written one definition level up, as a present group,
 whereas the repaired wrapper and `shred` (the reflection paths, `isNullValue`) write the null group. -/
